@@ -271,6 +271,36 @@ def adopt(w: World, slot_idx: int, bound: str, owner="C13", trigger=""):
     def fail(detail):
         raise Violation(owner, "fault-bound", detail, trigger)
 
+    if isinstance(bound, tuple) and bound[0] == "grow":
+        # a bulk insert below one (previously empty) node was interrupted: every old
+        # node is where it was; below the target there may be new nodes, which hold
+        # data of the interrupted call.  The model takes them over.
+        _, target_uid, opid, allowed = bound
+        target = mt.find_uid(target_uid)
+        rt = slot.real._root if target.is_root() else w.real_of.get(target_uid)
+        k = [0]
+
+        def take(m: MNode, r_obj):
+            for rc in real_children(r_obj):
+                if id(rc) in w.uid_of:
+                    fail("an existing node moved below the target of the interrupted call")
+                if not any(rc.data is a for a in allowed):
+                    fail("node with foreign data below the target of the interrupted call")
+                try:
+                    explicit = rc.data_id != mt.rule(rc.data)
+                except TypeError:
+                    explicit = True
+                mc = MNode(f"n{opid}.f{k[0]}", rc.data, rc.data_id, explicit=explicit,
+                           kind=getattr(rc, "kind", None) if mt.typed else None)
+                k[0] += 1
+                m.insert(mc, None)
+                w.bind(mc.uid, rc)
+                take(mc, rc)
+
+        take(target, rt)
+        compare_slot(w, slot_idx, owner, trigger, bind=False)
+        return removed
+
     if bound == "free":
         # structure is unspecified: every reachable node must be a known node of this
         # slot (no new nodes), data / ids unchanged; the model takes over the shape
